@@ -51,6 +51,10 @@ PROFILES = [
     # several URIs / prefixes / START_NS events: switched on after the NamespaceFlattener repair (fix 86aac1c);
     # the flatten-lite model answers `unmodelled`, the cache on/off and strip on/off oracles judge the real code
     ('ns-heavy', 2, dict(ns='heavy', allow_heavy=True, root=True, ns_events=True, pool=3, cdata=0.1, max_nodes=14)),
+    # the same without START_NS/END_NS events (builder streams): the flattener makes the declarations up itself;
+    # few tags and attributes so that the identical start tag recurs under different made-up bindings (seeded C09-3)
+    ('ns-heavy-builder', 2, dict(ns='heavy', allow_heavy=True, root=True, ns_events=False, pool=2, max_nodes=16,
+                                 attr_counts=[0, 0, 0, 1], tags=['div', 'p', 'b', 'item'])),
     ('odd', 1, dict(pool=3, raw_markup=True, void_kids=True, cdata=0.15, comments=0.1, pis=0.05, max_nodes=12,
                     safe_text=0.1, comment_dashes=True, attr_ws=True, text_cr=True)),
 ]
